@@ -42,8 +42,8 @@ pub fn range_class(p: &RtcpPacket) -> Option<&'static str> {
             if b.len() > 31 { Some("blocks>31") } else if !b.iter().all(lost_in_range) { Some("lost-outside-24bit") } else { None } }
         RtcpPacket::SourceDescription(s) => {
             if s.chunks.len() > 31 { Some("chunks>31") }
-            else if s.chunks.iter().any(|c| c.items.iter().any(|i| i.text.len() > 255)) { Some("text>255") }
-            else if s.chunks.iter().any(|c| c.items.iter().any(|i| i.ty == 0)) { Some("item-type-0") } else { None } }
+            else if s.chunks.iter().any(|c| c.items.iter().any(|i| i.ty == 0)) { Some("item-type-0") }
+            else if s.chunks.iter().any(|c| c.items.iter().any(|i| i.text.len() > 255)) { Some("text>255") } else { None } }
         RtcpPacket::Goodbye(b) => {
             if b.sources.len() > 31 { Some("sources>31") } else if b.reason.as_ref().map_or(false, |r| r.len() > 255) { Some("reason>255") } else { None } }
         RtcpPacket::PictureLossIndication(_) | RtcpPacket::FullIntraRequest(_) => None,
@@ -53,6 +53,44 @@ pub fn range_class(p: &RtcpPacket) -> Option<&'static str> {
         RtcpPacket::TransportWideCc(t) => {
             // (the opaque status/delta payload may have any length: the packet is aligned with RTCP padding)
             if t.reference_time_64ms >= 1 << 24 { Some("reftime>24bit") } else { None } }
+    }
+}
+
+fn align4(n: usize) -> usize { (n + 3) & !3 }
+
+/// Independent statement of what serialising then parsing must do to one logical packet, written from the
+/// RFC field widths: `Err(class)` = the value cannot be put on the wire (the marshaller must refuse it),
+/// `Ok(q)` = it can, and `q` must come back: the packet itself, except for the three lossy fields the
+/// formats define — cumulative loss saturates at 24-bit signed (RFC 3550 §6.4.1), a REMB bitrate keeps its
+/// 18 most significant bits (mantissa/exponent), a NACK is the ascending set of its sequence numbers — and a
+/// BYE reason, which this stack cuts to the longest prefix of whole characters that fits 255 bytes.
+pub fn spec_roundtrip(p: &RtcpPacket) -> Result<RtcpPacket, &'static str> {
+    const MAX_BODY: usize = 65_535 * 4;
+    let sat = |b: &ReportBlock| ReportBlock { packets_lost: b.packets_lost.clamp(-(1 << 23), (1 << 23) - 1), ..b.clone() };
+    match p {
+        RtcpPacket::SenderReport(s) => { if s.report_blocks.len() > 31 { return Err("blocks>31"); }
+            Ok(RtcpPacket::SenderReport(SenderReport { report_blocks: s.report_blocks.iter().map(sat).collect(), ..s.clone() })) }
+        RtcpPacket::ReceiverReport(s) => { if s.report_blocks.len() > 31 { return Err("blocks>31"); }
+            Ok(RtcpPacket::ReceiverReport(ReceiverReport { report_blocks: s.report_blocks.iter().map(sat).collect(), ..s.clone() })) }
+        RtcpPacket::SourceDescription(s) => {
+            if s.chunks.len() > 31 { return Err("chunks>31"); }
+            let mut size = 0;
+            for c in &s.chunks { let mut n = 4; for i in &c.items {
+                if i.ty == 0 { return Err("item-type-0"); } if i.text.len() > 255 { return Err("text>255"); } n += 2 + i.text.len(); }
+                size += align4(n + 1); }
+            if size > MAX_BODY { return Err("body-too-long"); }
+            Ok(p.clone()) }
+        RtcpPacket::Goodbye(b) => { if b.sources.len() > 31 { return Err("sources>31"); }
+            Ok(RtcpPacket::Goodbye(Goodbye { sources: b.sources.clone(), reason: b.reason.as_ref().map(|r| {
+                let mut n = r.len().min(255); while !r.is_char_boundary(n) { n -= 1; } r[..n].to_string() }) })) }
+        RtcpPacket::PictureLossIndication(_) => Ok(p.clone()),
+        RtcpPacket::FullIntraRequest(f) => if 8 + 8 * f.requests.len() > MAX_BODY { Err("body-too-long") } else { Ok(p.clone()) },
+        RtcpPacket::GenericNack(n) => { if n.lost_packets.is_empty() { return Err("empty"); } Ok(norm(p)) }
+        RtcpPacket::RemoteBitrateEstimate(r) => { if r.ssrcs.len() > 255 { return Err("ssrcs>255"); }
+            let bits = 64 - r.bitrate_bps.leading_zeros(); let e = bits.saturating_sub(18);
+            Ok(RtcpPacket::RemoteBitrateEstimate(RemoteBitrateEstimate { bitrate_bps: (r.bitrate_bps >> e) << e, ..r.clone() })) }
+        RtcpPacket::TransportWideCc(t) => { if t.reference_time_64ms >= 1 << 24 { return Err("reftime>24bit"); }
+            if align4(16 + t.payload.len()) > MAX_BODY { return Err("body-too-long"); } Ok(p.clone()) }
     }
 }
 
@@ -69,9 +107,8 @@ fn rtp_wf(p: &RtpPacket) -> bool {
     p.header.payload_type < 128 && p.header.csrcs.len() <= 15
         && p.header.extension.as_ref().map_or(true, |e| e.data.len() % 4 == 0 && e.data.len() / 4 <= 65535)
 }
-fn rtp_marshalable(p: &RtpPacket) -> bool {
-    p.header.csrcs.len() <= 15 && p.header.extension.as_ref().map_or(true, |e| e.data.len() % 4 == 0)
-}
+/// everything outside the wire ranges must be an error (no masking, no truncated length field)
+fn rtp_marshalable(p: &RtpPacket) -> bool { rtp_wf(p) }
 
 /// RFC 8285 walk written from the RFC: Some(elements) iff the block is well formed
 fn spec_elems(profile: u16, d: &[u8]) -> Option<Vec<(u8, Vec<u8>)>> {
@@ -86,7 +123,7 @@ fn spec_elems(profile: u16, d: &[u8]) -> Option<Vec<(u8, Vec<u8>)>> {
             out.push((id, d[i + 1..i + 1 + len].to_vec())); i += 1 + len;
         }
         Some(out)
-    } else if profile == 0x1000 {
+    } else if profile & 0xFFF0 == 0x1000 {
         while i < d.len() {
             let id = d[i];
             if id == 0 { i += 1; continue; }
@@ -104,6 +141,8 @@ fn spec_elems(profile: u16, d: &[u8]) -> Option<Vec<(u8, Vec<u8>)>> {
 fn ref_fair_ext(e: &Option<RtpHeaderExtension>) -> bool {
     match e {
         None => true,
+        // (the reference knows the two-byte form only as exactly 0x1000)
+        Some(x) if (0x1001..=0x100F).contains(&x.profile) => false,
         Some(x) if x.profile != 0xBEDE && x.profile != 0x1000 => true,
         Some(x) => spec_elems(x.profile, &x.data).is_some()
             && !(x.profile == 0xBEDE && has_stop15(&x.data)),
@@ -156,7 +195,7 @@ pub fn s_rtp_marshal(run: &mut Run, t: &str) -> (String, Fails) {
     let q = parse_pkt(t);
     let mut f = vec![];
     let r = q.marshal();
-    if !rtp_marshalable(&q) && r.is_ok() { f.push(("codec:rtp:marshal-accepts-invalid".into(), "csrc>15 or unaligned extension accepted".into())); }
+    if !rtp_marshalable(&q) && r.is_ok() { f.push(("codec:rtp:marshal-accepts-invalid".into(), "PT>127, csrc>15, unaligned or over-long extension accepted".into())); }
     if rtp_wf(&q) {
         match &r {
             Err(e) => f.push(("codec:rtp:marshal-rejects-wellformed".into(), show_err(e))),
@@ -236,6 +275,7 @@ pub fn s_ext_get(_run: &mut Run, e: &str, id: &str) -> (String, Fails) {
         Ok(v) => {
             if let Some(x) = &ext { if let Some(el) = spec_elems(x.profile, &x.data) {
                 let maxid = if x.profile == 0xBEDE { 14 } else { 255 };
+                // RFC 8285 §4.3: the low four "appbits" of the two-byte profile are to be ignored
                 let want = if id >= 1 && id <= maxid { el.iter().find(|(i, _)| *i == id).map(|(_, d)| d.clone()) } else { None };
                 if id >= 1 && v.as_deref() != want.as_deref() { f.push((format!("codec:ext:get:{:#x}", x.profile), format!("want {:?} got {:?}", want, v))); }
             } }
@@ -294,35 +334,24 @@ pub fn s_rtcp_marshal(run: &mut Run, toks: &[&str]) -> (String, Fails) {
     let r = match catch(move || marshal_rtcp_packets(&ps2)) { Ok(r) => r, Err(p) => { f.push(("panic:rtcp_marshal".into(), p)); return ("panic".into(), f); } };
     let classes: Vec<Option<&str>> = ps.iter().map(range_class).collect();
     let all_in = classes.iter().all(|c| c.is_none());
-    // the one range class whose wire image is inherently ambiguous (an item of type END) is outside the framing oracle
-    let framing_domain = !classes.iter().any(|c| *c == Some("item-type-0"));
+    // what the wire can carry at all (everything else must be an error) and what must come back
+    let spec: Vec<Result<RtcpPacket, &'static str>> = ps.iter().map(spec_roundtrip).collect();
+    let must_reject = spec.iter().zip(&ps).find_map(|(r, p)| r.as_ref().err().map(|c| (kind(p), *c)));
     match &r {
-        Err(e) => { if all_in { f.push((format!("codec:{}:marshal-rejects-in-range", kind(&ps[0])), show_err(e))); } }
+        Err(e) => { if must_reject.is_none() { f.push((format!("codec:{}:marshal-rejects-representable", kind(&ps[0])), show_err(e))); } }
         Ok(b) => {
             if !b.is_empty() && !is_rtcp(b) { f.push(("codec:rtcp:is_rtcp-misses-own-output".into(), hex(&b[..b.len().min(8)]))); }
-            let first_bad = ps.iter().zip(&classes).find(|(_, c)| c.is_some());
-            let tag = |what: &str| match first_bad { Some((p, c)) => format!("codec:{}:{}:{}", kind(p), what, c.unwrap()), None => format!("codec:{}:{}", ps.first().map_or("compound", kind), what) };
-            match parse_c(b) {
-                Err(p) => f.push((tag("roundtrip-panics"), p)),
-                Ok(Err(e)) => { if framing_domain { f.push((tag("framing"), format!("own output unparsable: {}", show_err(&e)))); } }
-                Ok(Ok(back)) => {
-                    let same_kinds = back.len() == ps.len() && back.iter().zip(&ps).all(|(a, b)| kind(a) == kind(b) && cardinality(a) == cardinality(b));
-                    if !same_kinds { if framing_domain { f.push((tag("framing"), format!("sent {} packets, parsed {}: {}", ps.len(), back.len(), show_rtcps(&back)))); } }
-                    else if !all_in && classes.iter().all(|c| matches!(c, None | Some("lost-outside-24bit"))) {
-                        // RFC 3550 §6.4.1: the cumulative loss saturates at the 24-bit signed limits
-                        let sat = |b: &ReportBlock| ReportBlock { packets_lost: b.packets_lost.clamp(-(1 << 23), (1 << 23) - 1), ..b.clone() };
-                        let want: Vec<RtcpPacket> = ps.iter().map(|p| match norm(p) {
-                            RtcpPacket::SenderReport(mut s) => { s.report_blocks = s.report_blocks.iter().map(sat).collect(); RtcpPacket::SenderReport(s) }
-                            RtcpPacket::ReceiverReport(mut s) => { s.report_blocks = s.report_blocks.iter().map(sat).collect(); RtcpPacket::ReceiverReport(s) }
-                            o => o }).collect();
-                        for (w, b) in want.iter().zip(&back) { if matches!(w, RtcpPacket::SenderReport(_) | RtcpPacket::ReceiverReport(_)) && w != b {
-                            f.push(("codec:rr:loss-saturation".into(), show_rtcp(b))); } }
-                    }
-                    else if all_in {
-                        let want: Vec<RtcpPacket> = ps.iter().map(norm).collect();
-                        if back != want {
-                            let (p, q) = want.iter().zip(&back).find(|(a, b)| a != b).unwrap();
-                            f.push((format!("codec:{}:roundtrip", kind(p)), show_rtcp(q)));
+            if let Some((k, c)) = must_reject { f.push((format!("codec:{k}:marshal-accepts:{c}"), format!("{} bytes written", b.len()))); }
+            else {
+                let want: Vec<RtcpPacket> = spec.iter().map(|r| r.clone().unwrap()).collect();
+                match parse_c(b) {
+                    Err(p) => f.push(("panic:rtcp_parse".into(), p)),
+                    Ok(Err(e)) => f.push((format!("codec:{}:framing", kind(&ps[0])), format!("own output unparsable: {}", show_err(&e)))),
+                    Ok(Ok(back)) => {
+                        if back.len() != want.len() || back.iter().zip(&want).any(|(a, b)| kind(a) != kind(b) || cardinality(a) != cardinality(b)) {
+                            f.push((format!("codec:{}:framing", kind(&ps[0])), format!("sent {} packets, parsed {}: {}", ps.len(), back.len(), show_rtcps(&back))));
+                        } else if let Some(((w, q), c)) = want.iter().zip(&back).zip(&classes).find(|((a, b), _)| a != b) {
+                            f.push((format!("codec:{}:roundtrip{}", kind(w), c.map_or(String::new(), |c| format!(":{c}"))), show_rtcp(q)));
                         }
                     }
                 }
@@ -339,7 +368,7 @@ pub fn s_rtcp_marshal(run: &mut Run, toks: &[&str]) -> (String, Fails) {
                     }
                     Err(e) => {
                         // the reference insists on RFC-conformant item types / counts it models; everything generated in range is conformant
-                        f.push((format!("codec:{}:ref-rejects", kind(&ps[0])), e));
+                        if e.starts_with("panic") { run.count("rtcp_ref_panics_on_own_limits"); } else { f.push((format!("codec:{}:ref-rejects", kind(&ps[0])), e)); }
                     }
                 }
                 // … and vice versa: what the reference serialises for the same logical packets
@@ -665,7 +694,7 @@ pub fn run(args: &Args) {
         for k in 0..n { let ty = rng.below(9); ps.push(gens::rtcp_packet(&mut rng, ty, in_range || k > 0)); }
         for p in &ps { run.count(&format!("rtcp_logical:{}:{}", kind(p), range_class(p).unwrap_or("in-range"))); }
         let line = show_rtcps(&ps);
-        if line.len() > 60_000 { continue; }
+        if line.len() > 200_000 { continue; }
         emit(&mut run, format!("rtcp_marshal {line}"), true);
         if let Ok(b) = marshal_rtcp_packets(&ps) {
             if i % 2 == 0 { emit(&mut run, format!("rtcp_parse {}", hex(&b)), true); }
@@ -697,6 +726,22 @@ pub fn run(args: &Args) {
         if pad != 0 { for _ in 1..pad { body.push(0); } body.push(pad as u8); }
         let words = body.len() / 4; v[2] = (words >> 8) as u8; v[3] = words as u8; v.extend(body);
         emit(&mut run, format!("rtcp_parse {}", hex(&v)), true); run.count("rtcp_twcc_padded_wire");
+    }
+    // the 16-bit length fields: largest bodies / extensions that fit, and the first that do not
+    {
+        let fir = |n: usize| RtcpPacket::FullIntraRequest(FullIntraRequest { sender_ssrc: 1, requests: (0..n).map(|k| FirRequest { ssrc: k as u32, sequence_number: k as u8 }).collect() });
+        let twcc = |n: usize| RtcpPacket::TransportWideCc(TransportWideCc { sender_ssrc: 1, media_ssrc: 2, base_sequence: 3, packet_status_count: 4,
+            reference_time_64ms: 5, feedback_packet_count: 6, payload: vec![0xAB; n] });
+        let sdes = |n: usize| RtcpPacket::SourceDescription(SourceDescription { chunks: vec![SdesChunk { ssrc: 9,
+            items: (0..n).map(|_| SdesItem { ty: 1, text: "a".repeat(255) }).collect() }] });
+        for p in [fir(32_766), fir(32_767), twcc(262_124), twcc(262_125), twcc(262_121), sdes(1019), sdes(1020), sdes(1021)] {
+            emit(&mut run, format!("rtcp_marshal {}", show_rtcp(&p)), true); run.count("rtcp_length_field_boundary");
+        }
+        for words in [65_535usize, 65_536] {
+            let mut h = RtpHeader::new(96, 1, 2, 3); h.extension = Some(RtpHeaderExtension::new(0x4321, vec![0x5A; words * 4]));
+            emit(&mut run, format!("rtp_marshal {}", show_pkt(&RtpPacket { header: h, payload: Bytes::from_static(b"xy"), padding_len: 0 })), true);
+            run.count("rtp_ext_length_field_boundary");
+        }
     }
     // boundary NACK sets: every subset of a window straddling 65535 → 0
     let w: u32 = if args.tier_thorough { 20 } else { 11 };
